@@ -139,6 +139,7 @@ def run(ctx):
             break
         if n >= 3:
             raise Inconclusive("binding self-test failed: write decision on the closed connection was accepted")
+    notify = notification_path(ctx)
     r_fix = tlc.require_clean(f_fix.result(), "ClientConn (Fix)")
     for inv, f in f_orig.items():
         if inv not in f.result().inv_violated:
@@ -159,4 +160,48 @@ def run(ctx):
             sum(1 for t in traces for e in t if e["e"] == "CallEnd" and not e["ok"]),
         "hook_hits": dict(zip(["scenarios", "dialed", "dequeued", "close", "recv.exit", "enqueue", "tick"], hits)),
         "selftest_corrupted_traces": selftest, "exhaustive": False,
+        "close_notification_path": notify,
     }
+
+
+def notification_path(ctx):
+    """The third kind of server-initiated close of the statement: the close notification (a push with request id 0 carrying
+    the reconnect message, what Protocol.GetCloseMsg produces).  Real ServantProxy / AdapterProxy.onPush / GraceClose against
+    the scripted peer of the C08/C09 harness (class 'notify'): first-wave calls are answered, the peer sends the
+    notification, and once the client has received it every caller makes a second call 2..1200 ms later (before and after
+    the old connection is closed by GraceClose's 500 ms tick).  The peer answers everything it receives on any connection,
+    so each of those calls must succeed; the runs are also validated against ClientMux (Trace_ClientMux)."""
+    from checks import c08 as mux
+    exe = gobuild.build(ctx, "muxdrive")
+    traces, hits = mux.drive(ctx, exe, ["notify"], ctx.pick(10, 60), 16, ctx.pick(5, 10), "c11notify", selftest=False)
+    failures, st, _ = mux.validate(ctx, traces, mux.C08_INV, "c11notify", groups=2)
+    for t, f in failures:
+        ev = f["event"]
+        ctx.violate("C11:notify:trace-rejected:%s" % (f["invariant"][0] if f["invariant"] else ev.get("e")),
+                    "run with a close notification is not a behaviour of ClientMux at event %s" % json.dumps(ev), mux.describe(t, f))
+    second = failed = 0
+    delays = {}
+    for t in traces:
+        half = t[0]["k"] // 2
+        pushed = any(e["e"] == "RecvBegin" and e.get("id") == 0 for e in t)
+        for e in t:
+            if e["e"] == "CallEnd" and e["c"] > half:
+                second += 1
+                if e["k"] != "reply" and pushed:
+                    failed += 1
+                    ctx.violate("C11:call-after-close-notification-failed:%s" % e["k"],
+                                "caller %d's call, issued after the client had received the server's close notification, ended with %s "
+                                "after %d ms although the server answers every request it receives" % (e["c"], e["k"], e.get("ms", -1)),
+                                {"scenario": t[0], "event": e, "trace": t[:300]})
+        if not pushed:
+            raise Inconclusive("notify run %d: the close notification never reached AdapterProxy.Recv" % t[0]["sc"])
+    if second == 0:
+        raise Inconclusive("no call was issued after a close notification")
+    # binding self-test: a second-wave call that claims a reply the peer never sent must be rejected by the trace spec
+    base = next((t for t in traces if all(e["k"] == "reply" for e in t if e["e"] == "CallEnd")), None)
+    if base is not None and not failures:
+        victim = [e for e in base if e["e"] == "CallEnd"][-1]
+        other = [e for e in base if e["e"] == "CallEnd" and e["c"] != victim["c"]][0]
+        m = [dict(e, tag=other["tag"]) if (e["e"] == "CallEnd" and e["c"] == victim["c"]) else e for e in base]
+        mux.require_rejected(ctx, m, mux.C08_INV, "st-notify-tag")
+    return {"runs": len(traces), "calls_after_the_notification": second, "failed": failed, "trace_states": st["states"]}
